@@ -1,6 +1,7 @@
 mod auth;
 mod chain;
 mod dlog;
+mod expr;
 mod chainrec;
 mod keys;
 mod layout;
@@ -23,6 +24,7 @@ fn main() {
         "limits-replay" => limits::cmd_replay(&args[2], &args[3]),
         "limits-time" => limits::cmd_time(&args[2]),
         "snap-replay" => snap::cmd_replay(&args[2], &args[3]),
+        "expr-replay" => expr::cmd_replay(&args[2], &args[3]),
         "auth-replay" => auth::cmd_replay(&args[2], &args[3]),
         "dlog-replay" => dlog::cmd_replay(&args[2], &args[3]),
         "chain-honest" => chain::cmd_honest(&args[2], &args[3]),
